@@ -38,6 +38,23 @@ def s_frame():
     return pd.DataFrame({"value-of": ["s_frame"] * 50, "n": list(range(50))})
 
 
+def s_big_frame():
+    vlog.hit("s_big_frame")
+    import pandas as pd
+
+    return pd.DataFrame({"n": range(1100000)})
+
+
+def s_dict():
+    vlog.hit("s_dict")
+    return {"value-of": "s_dict", "rows": [[i, "r%d" % i] for i in range(2000)], "end": True}
+
+
+def s_dict_earlier():
+    vlog.hit("s_dict_earlier")
+    return {"value-of": "s_dict_earlier", "n": 1}
+
+
 def s_none():
     vlog.hit("s_none")
     return None
@@ -75,6 +92,8 @@ EXPECTED = {
     "n_leaf_a": "value-of-n_leaf_a:" + BIG[:500],
     "n_leaf_b": ("value-of-n_leaf_b", 7, BIG[:300]),
 }
+EXPECTED["s_dict"] = {"value-of": "s_dict", "rows": [[i, "r%d" % i] for i in range(2000)], "end": True}
+EXPECTED["s_dict_earlier"] = {"value-of": "s_dict_earlier", "n": 1}
 EXPECTED["s_frame"] = s_frame.__wrapped__() if hasattr(s_frame, "__wrapped__") else None
 EXPECTED["n_mid"] = ("value-of-n_mid", EXPECTED["n_leaf_a"], EXPECTED["n_leaf_b"])
 EXPECTED["n_top"] = ("value-of-n_top", EXPECTED["n_mid"])
@@ -113,6 +132,36 @@ def act_keep(path, fn_name, data="data", cache=None):
     return run
 
 
+def act_keep_user_codec(path, fn_name, earlier=None):
+    """A process that registers a user file codec for dict results and then keeps. earlier: a long-lived session that
+    had already kept this other function (a dict result as well) before the codec was registered."""
+    def run(root):
+        from dds.codec import codec_registry
+        from vp import storemodel
+
+        set_local(root)
+        if earlier:
+            dds.keep("/c7/earlier", globals()[earlier])
+        codec_registry().add_file_codec(storemodel.json_dict_file_codec())
+        return dds.keep(path, globals()[fn_name])
+
+    run.__name__ = "keep-with-user-dict-codec(%s,%s%s)" % (path, fn_name, ",after-earlier-keep" if earlier else "")
+    return run
+
+
+def act_load_user_codec(path):
+    def run(root):
+        from dds.codec import codec_registry
+        from vp import storemodel
+
+        set_local(root)
+        codec_registry().add_file_codec(storemodel.json_dict_file_codec())
+        return dds.load(path)
+
+    run.__name__ = "load-with-user-dict-codec(%s)" % path
+    return run
+
+
 def act_keep_twice(path, fn_name, cache=None):
     """One process, one long-lived store object: the same keep twice; between the two an operation on the marker
     file MARK_second_keep makes the boundary visible in the recorded operation order."""
@@ -144,6 +193,12 @@ def frame_value():
     import pandas as pd
 
     return pd.DataFrame({"value-of": ["s_frame"] * 50, "n": list(range(50))})
+
+
+def big_frame_value():
+    import pandas as pd
+
+    return pd.DataFrame({"n": range(1100000)})
 
 
 def act_eval_top(data="data"):
